@@ -396,7 +396,7 @@ def replay(rec):
 
 LEVEL_TEXT = ("contract-based, partial: character-level string contracts on validate_ae / set_ae (title mode) / validate_ui for every "
               "string of every length; AST scan that all AE-title setters on the way to the wire use that mode; inductive contract on the "
-              "context-numbering loop of AE.associate (ids 2i+1, at most 128 contexts) with a distinctness lemma.")
+              "context-numbering loop of AE.associate (ids 2i+1, at most 128 contexts) with a distinctness lemma. ACSE.send_request/send_accept: what goes into the A-ASSOCIATE primitive; per-position copy of the requested contexts.")
 LEVEL_NOTE = ("level 'other': the user-information item multiplicities for arbitrary extended-negotiation combinations and the AC result list "
               "are covered by other properties' contracts (see not_decided); UID character legality is an open known finding in the default "
               "configuration.")
